@@ -13,8 +13,8 @@ import (
 // Linearizability model of one row: state = canonical encoding of the row.
 
 type LinIn struct {
-	Op    *Op   // MutateRow | MutateRowsEntry | CheckAndMutate | RMW | ReadRow
-	Entry int   // index of the MutateRows entry
+	Op    *Op // MutateRow | MutateRowsEntry | CheckAndMutate | RMW | ReadRow
+	Entry int // index of the MutateRows entry
 	Fams  map[string]*GC
 	Clock int64
 }
